@@ -564,6 +564,9 @@ func errorBranchReturn(ret *ssa.Return) bool {
 // bracket contract of the Converter interface.
 var protoSpec = map[string]string{
 	"Operation":                        `^eval\(Left\) eval\(Right\) conv\(\$callout\)$`,
+	"BinaryOperation":                  `^eval\(Left\) eval\(Right\) conv\(\$callout\)$`,
+	"Comparison":                       `^eval\(Left\) eval\(Right\) conv\(\$callout\)$`,
+	"LogicalOperation":                 `^eval\(Left\) eval\(Right\) conv\(\$callout\)$`, // both operands, always: && and || are eager in the emitted script
 	"UnaryOperation":                   `^eval\(Expression\) conv\(UnaryOperation\)$`,
 	"Print":                            `^(eval\(Expressions\[\*\]\) )*conv\(Print\)$`,
 	"Panic":                            `^eval\(Expression\) conv\(Panic\)$`,
